@@ -189,10 +189,12 @@ func (rw *remoteUnit) startRemoteUnit(ctx context.Context, conn net.Conn, reader
 		return fmt.Errorf("could not parse response: %s", strings.TrimRight(response, "\n"))
 	}
 	red.RemoteUnitID = string(match[1])
+	verifCrashPoint("remote.after_remote_ack")
 	rw.UpdateFullStatus(func(status *StatusFileData) {
 		ed := status.ExtraData.(*RemoteExtraData)
 		ed.RemoteUnitID = red.RemoteUnitID
 	})
+	verifCrashPoint("remote.after_unitid_saved")
 	stdin, err := os.Open(path.Join(rw.UnitDir(), "stdin"))
 	if err != nil {
 		return fmt.Errorf("error opening stdin file: %s", err)
